@@ -246,6 +246,8 @@ def env_invariant(I, env, heap=None):
     if sp.cls == "DiscretePortfolio":
         n = h[spf["contracts"].oid]["len"]
         out.append(Cl("table_width", spf["_allocations"].ncols == n))
+    bex = h[b.oid].get("exchange")
+    out.append(Cl("broker_trades_on_this_exchange", z3.BoolVal(isinstance(bex, Obj) and isinstance(f["exchange"], Obj) and bex.oid == f["exchange"].oid)))
     return out + clock_invariant(I, env, h)
 
 
@@ -253,36 +255,53 @@ def env_invariant(I, env, heap=None):
 from pyvc.loops import LoopContract
 
 
-def batch_sorted(I, seq_obj, heap, now0, tag=""):
-    """what Transmitter._create_partitions/_next establish for a batch (C04 lemma): stamps non-decreasing, none before the clock"""
-    p = heap[seq_obj.oid]
-    at, n = p["at"], p["len"]
+def seq_view(p):
+    """(len, at) of a sequence record, symbolic (`at`) or a concrete python list of values (`items`)"""
+    if "at" in p:
+        return p["len"], p["at"]
+    items = list(p["items"])
+    def at(i):
+        v = None
+        for j in reversed(range(len(items))):
+            v = items[j] if v is None else vite(i == j, items[j], v)
+        return v if v is not None else ActV(z3.Const("no_event", Act))
+    return z3.IntVal(len(items)), at
+
+
+def clock_of(f):
+    """the environment clock: None while no event has been notified since reset"""
+    return None if f.get("_now") is None else lift_fl(f["_now"]).v
+
+
+def batch_sorted(I, seq_obj, heap, lows, tag=""):
+    """what Transmitter._create_partitions/_next establish for a batch (C04 lemma): stamps non-decreasing, none before the clock.
+    lows: [(guard, lower bound)]"""
+    n, at = seq_view(heap[seq_obj.oid])
     I.add_idx(z3.IntVal(0))
+    first = ev_time(at(z3.IntVal(0)).t)
     return [PWI(tag + "batch_in_stamp_order", lambda i: z3.Implies(z3.And(0 <= i, i + 1 < n), ev_time(at(i).t) <= ev_time(at(i + 1).t))),
-            Cl(tag + "batch_not_before_the_clock", z3.Implies(n > 0, ev_time(at(z3.IntVal(0)).t) >= now0))]
-
-
-def batch_end(heap, seq_obj, now0):
-    p = heap[seq_obj.oid]
-    return z3.If(p["len"] > 0, ev_time(p["at"](p["len"] - 1).t), now0)
+            Cl(tag + "batch_not_before_the_clock", z3.And(*[z3.Implies(z3.And(n > 0, g), first >= lo) for g, lo in lows]) if lows else TRUE)]
 
 
 def clock_invariant(I, env, heap):
     """C04: the clock is the stamp of the last notified event; the buffered batches are in stamp order, the latent batch not before
     the clock and the non-latent batch not before the end of the latent one"""
     f = heap[env.oid]
-    now = lift_fl(f["_now"]).v
+    now = clock_of(f)
     le = f["_last_event"]
     lat, non = f["_events_latent"], f["_events_nonlatent"]
-    I.add_idx(heap[lat.oid]["len"] - 1)
-    return ([Cl("clock_is_last_event_time", TRUE if le is None else event_time(heap, le) == now)]
-            + batch_sorted(I, lat, heap, now, "latent_") + batch_sorted(I, non, heap, batch_end(heap, lat, now), "nonlatent_"))
+    nl, atl = seq_view(heap[lat.oid])
+    I.add_idx(nl - 1)
+    lows_lat = [(TRUE, now)] if now is not None else []
+    lows_non = [(nl > 0, ev_time(atl(nl - 1).t))] + ([(nl == 0, now)] if now is not None else [])
+    return ([Cl("clock_is_last_event_time", z3.BoolVal(le is None) if now is None else (TRUE if le is None else event_time(heap, le) == now))]
+            + batch_sorted(I, lat, heap, lows_lat, "latent_") + batch_sorted(I, non, heap, lows_non, "nonlatent_"))
 
 
 class _ProcessEvents(Contract):
     """C04: the batch is notified in list order, each event exactly once, the clock ends at the last event's stamp; the buffers are
     swapped as stated. What the delivered events do to the quotes is an assumption about the *inputs* (the property's quantifier:
-    0 < bid <= ask, cash at 1/1, the rate quoted)."""
+    0 < bid <= ask, cash at 1/1, the rate quoted). The clock may be undefined at entry (first delivery after a reset)."""
     relpath = REL_ENV
     props = ("C04", "C08")
     field = None
@@ -291,6 +310,9 @@ class _ProcessEvents(Contract):
     def pre_state(self, I):
         env = mk_env(I, "box")
         I.fset(env, "_g_delivered", In(I.int("delivered0")))
+        if I.choice(2) == 1:                      # right after a reset: no clock, no last event
+            I.fset(env, "_now", None)
+            I.fset(env, "_last_event", None)
         return {"self": env}
 
     def requires(self, c):
@@ -298,7 +320,11 @@ class _ProcessEvents(Contract):
         h = I.snapshot()
         f = h[c.self.oid]
         le = f["_last_event"]
-        return batch_sorted(I, f[self.field], h, f["_now"].v) + [Cl("clock_is_last_event_time", TRUE if le is None else event_time(h, le) == f["_now"].v)]
+        now = clock_of(f)
+        bex = h[f["broker"].oid].get("exchange")
+        wired = isinstance(bex, Obj) and isinstance(f["exchange"], Obj) and bex.oid == f["exchange"].oid
+        return batch_sorted(I, f[self.field], h, [(TRUE, now)] if now is not None else []) + \
+            [Cl("broker_trades_on_this_exchange", z3.BoolVal(bool(wired))), Cl("clock_is_last_event_time", z3.BoolVal(le is None) if now is None else (TRUE if le is None else event_time(h, le) == now))]
 
     def modifies(self, c):
         f = c.I.heap[c.self.oid]
@@ -318,11 +344,16 @@ class _ProcessEvents(Contract):
         havoc_loc(I, ("col", books, "bid_price"))
         havoc_loc(I, ("col", books, "ask_price"))
         old = c.old[c.self.oid]
-        p = c.old[old[self.field].oid]
-        n, at = p["len"], p["at"]
+        n, at = seq_view(c.old[old[self.field].oid])
         I.add_idx(n - 1)
-        I.fset(c.self, "_now", Tm(z3.If(n > 0, ev_time(at(n - 1).t), old["_now"].v)))
-        I.fset(c.self, "_last_event", I.new_rec("IEvent", time=I.heap[c.self.oid]["_now"]))
+        now0 = clock_of(old)
+        if now0 is None:
+            if I.branch(n > 0):
+                I.fset(c.self, "_now", Tm(ev_time(at(n - 1).t)))
+                I.fset(c.self, "_last_event", I.new_rec("IEvent", time=I.heap[c.self.oid]["_now"]))
+        else:
+            I.fset(c.self, "_now", Tm(z3.If(n > 0, ev_time(at(n - 1).t), now0)))
+            I.fset(c.self, "_last_event", I.new_rec("IEvent", time=I.heap[c.self.oid]["_now"]))
         if "_g_delivered" in old:
             I.fset(c.self, "_g_delivered", In(old["_g_delivered"].v + n))
         I.trace.append(("global_write", "AbstractContract.now"))
@@ -331,18 +362,31 @@ class _ProcessEvents(Contract):
             I.assume(I.heap[I.heap[c.self.oid]["_events_latent"].oid]["len"] == 0)
         else:
             ex = I.bool("stream_exhausted")
+            I.trace.append(("stream_exhausted", ex))
             lat, non = mk_event_seq(I, "latent"), mk_event_seq(I, "nonlatent")
             I.fset(c.self, "_done", z3.Or(tobool(old["_done"]), ex))
+            # exhausted: the buffers keep what they held; otherwise they hold the two batches of the next timestep
             I.fset(c.self, "_events_latent", lat)
             I.fset(c.self, "_events_nonlatent", non)
 
     def delivery(self, c):
         I = c.I
         old, new = c.old[c.self.oid], c.heap()[c.self.oid]
-        p = c.old[old[self.field].oid]
-        n, at = p["len"], p["at"]
+        n, at = seq_view(c.old[old[self.field].oid])
         I.add_idx(n - 1)
-        out = [Cl("clock_at_last_delivered_event", lift_fl(new["_now"]).v == z3.If(n > 0, ev_time(at(n - 1).t), old["_now"].v))]
+        now0, now1 = clock_of(old), clock_of(new)
+        if now1 is None:
+            clk = z3.And(z3.BoolVal(now0 is None), n == 0)
+            adv = z3.BoolVal(now0 is None)
+        elif now0 is None:
+            clk = z3.And(n > 0, now1 == ev_time(at(n - 1).t))
+            adv = TRUE
+        else:
+            clk = now1 == z3.If(n > 0, ev_time(at(n - 1).t), now0)
+            adv = now1 >= now0
+        le = new["_last_event"]
+        out = [Cl("clock_at_last_delivered_event", clk), Cl("clock_advances", adv),
+               Cl("clock_is_last_event_time", z3.BoolVal(le is None) if now1 is None else (TRUE if le is None else event_time(c.heap(), le) == now1))]
         if "_g_delivered" in old:
             out.append(Cl("every_event_notified_exactly_once", new["_g_delivered"].v == old["_g_delivered"].v + n))
         return out
@@ -355,10 +399,11 @@ class _ProcessEvents(Contract):
         b = f["broker"]
         v = SymBrokerView(I, b, h)
         tr = h[h[b.oid]["track_record"].oid]
-        cl = [Cl("cash_ok", cash_ok(v)), PW("sane_quotes", lambda k: sane_quote(v, k)),
-              Cl("fresh_timestamp", z3.Not(tr["_has_time"](f["_now"].v)))]
-        cl += [x for x in REGISTRY["Broker.accrued_interest"].requires(Ctx(I, {"self": b, "now": f["_now"], "accrue": True}))
-               if x.name in ("rate_quoted", "markup", "pow_axioms")]
+        cl = [Cl("cash_ok", cash_ok(v)), PW("sane_quotes", lambda k: sane_quote(v, k))]
+        if clock_of(f) is not None:
+            cl.append(Cl("fresh_timestamp", z3.Not(tr["_has_time"](clock_of(f)))))
+            cl += [x for x in REGISTRY["Broker.accrued_interest"].requires(Ctx(I, {"self": b, "now": f["_now"], "accrue": True}))
+                   if x.name in ("rate_quoted", "markup", "pow_axioms")]
         for x in cl:
             x.input_assumption = True        # AXIOM(inputs)
         return cl
@@ -372,10 +417,7 @@ class ProcessLatent(_ProcessEvents):
     def ensures(self, c):
         new = c.heap()[c.self.oid]
         buf = c.heap()[new["_events_latent"].oid] if isinstance(new["_events_latent"], Obj) else None
-        return self.delivery(c) + [Cl("latent_buffer_emptied", FALSE if buf is None else buf["len"] == 0),
-                                   Cl("clock_advances", lift_fl(new["_now"]).v >= c.old[c.self.oid]["_now"].v),
-                                   Cl("clock_is_last_event_time", TRUE if new["_last_event"] is None else
-                                      event_time(c.heap(), new["_last_event"]) == lift_fl(new["_now"]).v)] + self.inputs(c)
+        return self.delivery(c) + [Cl("latent_buffer_emptied", FALSE if buf is None else seq_view(buf)[0] == 0)] + self.inputs(c)
 
 
 @register
@@ -390,8 +432,8 @@ class ProcessNonLatent(_ProcessEvents):
         for x in nxt:
             if x.name != "clock_is_last_event_time":
                 x.input_assumption = True     # ASSUMED of Transmitter._next (C04 partition-slot lemma + bounded shell): next batches ordered, after the clock
-        return self.delivery(c) + [Cl("done_is_only_ever_set", z3.Implies(tobool(old["_done"]), tobool(new["_done"]))),
-                                   Cl("clock_advances", lift_fl(new["_now"]).v >= old["_now"].v)] + nxt + self.inputs(c)
+        return self.delivery(c) + [Cl("done_is_only_ever_set", z3.Implies(tobool(old["_done"]), tobool(new["_done"])))] + \
+            [x for x in nxt if x.name != "clock_is_last_event_time"] + self.inputs(c)
 
 
 class _DeliverLoop(LoopContract):
@@ -400,18 +442,37 @@ class _DeliverLoop(LoopContract):
 
     def havoc(self, L):
         env = L.env["self"]
-        return [("field", env, "_now"), ("field", env, "_g_delivered")]
+        old = L.entry[env.oid]
+
+        def clock(I):
+            # at an arbitrary iteration the clock is a time and the last event is some event, unless nothing has been notified
+            # yet (only possible before the first iteration of the first delivery after a reset)
+            if clock_of(old) is None and I.choice(2) == 0:
+                return
+            I.fset(env, "_now", I.tm("hv_now"))
+            I.fset(env, "_last_event", I.new_rec("IEvent", time=I.tm("hv_last_time")))
+        return [clock, ("field", env, "_g_delivered"), ("global", "AbstractContract.now")]
+
+    def frame(self, L):
+        env = L.env["self"]
+        return [("field", env, "_now"), ("field", env, "_last_event"), ("field", env, "_g_delivered")]
 
     def inv(self, L):
         env = L.env["self"]
         old, cur = L.entry[env.oid], L.cur[env.oid]
-        p = L.entry[old[self.field].oid]
-        at = p["at"]
+        n, at = seq_view(L.entry[old[self.field].oid])
         i = L.i
         L.I.add_idx(i - 1)
-        out = [Cl("clock_follows_the_batch", lift_fl(cur["_now"]).v == z3.If(i > 0, ev_time(at(i - 1).t), old["_now"].v)),
-               Cl("clock_never_goes_back", lift_fl(cur["_now"]).v >= old["_now"].v),
-               Cl("last_event_is_the_clock", TRUE if cur["_last_event"] is None else event_time(L.cur, cur["_last_event"]) == lift_fl(cur["_now"]).v)]
+        now0, now = clock_of(old), clock_of(cur)
+        le = cur["_last_event"]
+        if now is None:
+            out = [Cl("clock_follows_the_batch", z3.And(z3.BoolVal(now0 is None), i == 0)),
+                   Cl("last_event_is_the_clock", z3.BoolVal(le is None))]
+        else:
+            follows = z3.And(i > 0, now == ev_time(at(i - 1).t)) if now0 is None else now == z3.If(i > 0, ev_time(at(i - 1).t), now0)
+            out = [Cl("clock_follows_the_batch", follows),
+                   Cl("clock_never_goes_back", TRUE if now0 is None else now >= now0),
+                   Cl("last_event_is_the_clock", TRUE if le is None else event_time(L.cur, le) == now)]
         if "_g_delivered" in old:
             out.append(Cl("delivered_so_far", cur["_g_delivered"].v == old["_g_delivered"].v + i))
         return out
@@ -439,7 +500,12 @@ class TransmitterNext(Contract):
         return {"StopIteration": {"when": c.I.bool("stream_exhausted")}}
 
     def result(self, c):
-        return (mk_event_seq(c.I, "latent"), mk_event_seq(c.I, "nonlatent"))
+        I = c.I
+        lat, non = mk_event_seq(I, "latent"), mk_event_seq(I, "nonlatent")
+        # every step is an event-bearing timestep: Transmitter._reset takes its steps from the keys of the two partitions, and a
+        # key exists only because _create_partitions appended an event under it (part of the ASSUMED summary)
+        I.assume(I.heap[lat.oid]["len"] + I.heap[non.oid]["len"] > 0)
+        return (lat, non)
 
 
 def _attach_next():
